@@ -26,6 +26,14 @@ def main():
             obs = WC.run_case(d)
         except SyntaxError:
             continue                       # a generated program this interpreter's grammar rejects
+        except Exception as ex:  # noqa: BLE001
+            if getattr(ex, "harness_only", False):
+                # the harness cannot take the source apart: not a failing input (reported by the parent as
+                # "correspondence unavailable")
+                sys.stdout.write(json.dumps({"_kind": d["_kind"], "which": which, "ver": W.VER, "src": "alt-unavailable",
+                                             "unavailable": repr(ex)}) + "\n")
+                return
+            raise
         pre = {"obs": obs}
         if "machine_error" not in obs and d["_kind"] != "table":
             co, _ = WC.load_code(d)
